@@ -248,8 +248,10 @@ def validate_translation(target, traces, workdir, outs=None):
 def write_evidence(pid, tier, seed, coverage, assumptions, wall, violations=0, level="proof"):
     ev = dict(property_id=pid, tier=tier, seed=int(seed), level=level, coverage=coverage,
               assumptions=assumptions, wall_s=round(wall, 2), violations=violations)
-    (VERIF / "evidence").mkdir(exist_ok=True)
-    (VERIF / "evidence" / f"{pid}.json").write_text(json.dumps(ev, indent=1, default=str) + "\n")
+    # evidence/ is only written for runs against /repo itself; experiments with LUNA_REPO go to _build/
+    d = (VERIF / "evidence") if str(REPO) == "/repo" else (BUILD / "evidence_experiments")
+    d.mkdir(parents=True, exist_ok=True)
+    (d / f"{pid}.json").write_text(json.dumps(ev, indent=1, default=str) + "\n")
 
 
 def write_replay(pid, payload):
